@@ -221,6 +221,7 @@ fn mutate_anon_map(
                 .cloned()
                 .unwrap_or_else(|| value_type.initial_value());
 
+            path_node_ctx.on_keys_seen(value_map.keys());
             let key = path_node_ctx.next_key();
             let child_path_node_ctx = path_node_ctx.get_or_create_child_mut(&key.to_string());
             let child_mutation_params = child_path_node_ctx
